@@ -70,7 +70,16 @@ def main():
     rc, out = sh("cargo build --offline --target-dir %s/target-hooks 2>&1 | tail -3" % wt, cwd=wt, env=henv)
     log["compiles_with_hooks"] = "Finished" in out
     log["ran"].append("cargo build --offline (with change; hooks off and on)")
-    if not skip_suite:
+    reuse = None
+    if "--reuse-suite" in sys.argv and os.path.exists(dest + "/meta.json") and os.path.exists(dest + "/patch.diff"):
+        oldc = json.load(open(dest + "/meta.json")).get("confirmation", {})
+        if open(dest + "/patch.diff").read() == open(patch).read() and oldc.get("suite_passes_with_change") and oldc.get("repo_head") == head:
+            reuse = oldc
+    if reuse:
+        log["suite_with_change"] = reuse["suite_with_change"]
+        log["suite_passes_with_change"] = True
+        log["ran"].append("test suite result reused from the earlier confirmation of the identical patch at the same /repo HEAD")
+    elif not skip_suite:
         t = time.time()
         rc, out = sh("cargo test --workspace --no-fail-fast --offline 2>&1 | grep -E '^test result|FAILED|failed' | head -20", cwd=wt, env=env)
         m = re.search(r"test result: (\w+)\. (\d+) passed; (\d+) failed", out)
@@ -136,7 +145,7 @@ def main():
     sh("rm -rf %s/.build/*-%s" % (VERIF, tag))
     sh("rm -f %s/replays/*.json" % VERIF)
 
-    confirmed = log.get("compiles") and log.get("compiles_with_hooks") and (skip_suite or log.get("suite_passes_with_change")) and ok_with is False and ok_without is True
+    confirmed = log.get("compiles") and log.get("compiles_with_hooks") and log.get("suite_passes_with_change") and ok_with is False and ok_without is True
     log["confirmed"] = bool(confirmed)
     os.makedirs(dest, exist_ok=True)
     shutil.copy(patch, dest + "/patch.diff")
